@@ -22,7 +22,7 @@ RULE = ("sizes {1, 2, 1000, 64 KiB, 1 MiB-1, 1 MiB, 1 MiB+1, 4 MiB, 8 MiB} (+ ra
         "{immediate, delayed start, small reads with sleeps, a 7 s stall after the first MiB, small reads while the sender "
         "disables as soon as its send succeeded, abortive close midway} x peer receive buffer {default, 4 KiB}; 1-3 sends per "
         "connection; distinct by (mode, path, sizes, pacing, rcvbuf); non-trivial when the total exceeds 256 KiB "
-        "(more than loopback socket buffering)")
+        "(more than loopback socket buffering); plus: thousands of 3000-byte sends (and mixed 1..4097-byte sends) towards a peer that reads in bursts or lets the sender run into full buffers and then makes room for 100 kB at a time")
 ASSUMPTIONS = ["loopback only; buffer sizes are the kernel's", "payload bytes are a position-keyed pseudo-random stream so loss, "
                "duplication and reordering are all visible", "a send that reports failure only needs to have delivered a prefix"]
 LEVEL_TEXT = ("Runtime conservation monitoring (bytes accepted = bytes received, in order) of the real socket path under "
